@@ -29,4 +29,6 @@ func C06(r *core.Run) {
 	// a decode into a type that cannot be reflected fails; what the failed build leaves in the codec's
 	// schema cache is what the next decode finds (a kept ref to a removed placeholder is a nil dereference)
 	registeredRefsRolledBack(r)
+	// reflecting the target message is part of every decode: a descriptor found by name is of any kind
+	lookedUpFieldsKindChecked(r, []string{"lib/j5schema", "lib/j5reflect", "internal/codec"}, 1)
 }
